@@ -18,6 +18,7 @@ RULE = ('trees = parser-produced Select/Union/Intersect/Except/Insert/Update/Del
         'templates + dedicated statements with every node kind in every position (CASE operand, function FROM-argument, window partitions, '
         'CTE bodies, tuples, casts, DML targets, VALUES rows); one replacement run per visit index; non-trivial = tree with >= 5 required '
         'nodes; distinct by multiset of (node class, field)')
+RULE += "; also: lists of 65-300 elements, abandoned traversals (raising visitor), replacement nodes of several kinds (NULL, 0, '', FALSE, empty tuple)"
 ASSUMPTIONS = ['required set = nodes in expression / table / query positions (select-list items, FROM and JOIN operands, join conditions, WHERE, '
                'GROUP BY, HAVING, ORDER BY fields, function arguments incl. FROM-argument, CASE operand and branches, window partitions and '
                'orderings, cast arguments, tuple items, INSERT values, UPDATE SET values, CTE bodies, set-operation sides, subqueries, DML targets)',
